@@ -46,6 +46,8 @@ Step track_step(Rng& r, int size)
         s.a[1] = F_LOOP_AT;
     if (r.chance(1, 4))
         s.a[2] = r.chance(1, 2) ? 0 : 7;  // bias to the edge slots
+    if (r.chance(1, 7))
+        s.a.push_back(1);  // a clearing call (nullopt / empty list)
     return s;
 }
 
@@ -487,6 +489,8 @@ void gen_atomic(Plan& p, Rng& r, uint64_t index)
         s.a[1] = f < 25 ? (int64_t)f : (f == 25 ? F_HOT_CUE_AT : F_LOOP_AT);
         if (s.a[1] == F_FILE_BYTES)
             s.a[1] = F_TITLE;
+        if ((index / (n_plain + n_set + n_table)) % 3 == 1)
+            s.a.push_back(1);  // every third round: the clearing form of the setter
         p.steps.push_back(s);
     }
     else
